@@ -165,11 +165,17 @@ impl Shared {
             return Ok(());
         }
 
-        let limit_block_hash = snapshot
-            .get_epoch_index(current_epoch + 1 - THRESHOLD_EPOCH)
-            .and_then(|index| snapshot.get_epoch_ext(&index))
-            .expect("get_epoch_ext")
-            .last_block_hash_in_previous_epoch();
+        // Walk back along the main chain: the number -> epoch index (`get_epoch_index`) is
+        // rewritten by every epoch-head block that gets verified, side blocks included, and
+        // may point at an epoch of an abandoned branch.
+        let mut limit_epoch = snapshot.epoch_ext().to_owned();
+        for _ in 1..THRESHOLD_EPOCH {
+            limit_epoch = snapshot
+                .get_block_epoch_index(&limit_epoch.last_block_hash_in_previous_epoch())
+                .and_then(|index| snapshot.get_epoch_ext(&index))
+                .expect("get_epoch_ext");
+        }
+        let limit_block_hash = limit_epoch.last_block_hash_in_previous_epoch();
 
         let frozen_number = freezer.number();
 
